@@ -218,6 +218,20 @@ def register(reg):
         raises={},
     )
 
+    # ---- log_pin_request: the body (call sites use the gate-only summary above): the PIN reaches the log only for a request
+    # with a trusted Host, and only when PIN logging is on; an untrusted Host gets the 400 and nothing else happens
+    reg.overrides["werkzeug/debug/__init__.py:_log"] = lambda interp: interp.fresh("opaque:callback", "_log")
+    AppL = reg.model("DebuggedApplicationLog", cls="werkzeug/debug/__init__.py:DebuggedApplication",
+                     fields={"pin": "Optional[str]", "pin_logging": "bool"})
+    reg.contract(
+        "werkzeug/debug/__init__.py:DebuggedApplication.log_pin_request#verify", prop=P, self_model=AppL,
+        params={"request": Req}, modifies=[],
+        ensures=["implies(not uf_host_ok(request.environ), isinstance(result, SecurityError) and ncalls() == 0)",
+                 "implies(uf_host_ok(request.environ), not isinstance(result, SecurityError))",
+                 "implies(ncalls() > 0, self.pin_logging and self.pin is not None)"],
+        raises={},
+    )
+
     # ---- check_pin_trust: the cookie verification itself (second contract on the same function) -----------
     from pyvc.values import VBuiltin as _VB2, VDict as _VD2
 
